@@ -32,6 +32,8 @@ Fragment kinds (what the mate-pairing library delivers is taken as given, the st
   contig_end  unpaired reverse read whose last aligned base is the last base of the contig
   cigar       pair with soft clip / insertion / deletion / skipped region / hard clip in its CIGARs
   minimal_tags  read that only carries SM and RX (no flowcell / lane / library / barcode tags)
+  multi_umi   three pairs of one cell at one cut site with pairwise distant UMIs (AAA, CCC, GGG): three molecules in one
+              buffer bucket of the molecule iterator, ejected in the same round
   dup_lane    copy of the previous pair sequenced on another lane / flowcell: same molecule, different read group,
               and that read group is not the first fragment of any molecule
   unplaced_pair / unplaced_single   unmapped, no position                      invalid
@@ -46,7 +48,7 @@ THRESHOLD = 100_000
 
 PLACED_KINDS = ['pair', 'pair_rev', 'dup', 'single', 'nomotif', 'qcfail', 'half', 'orphan_r2', 'orphan_r1', 'secondary',
                 'dup_lane', 'orphan_unmapped', 'sec_only', 'half_r1u', 'cross', 'unmapped_placed_pair', 'umi_bridge',
-                'pos0', 'contig_end', 'cigar', 'minimal_tags']
+                'pos0', 'contig_end', 'cigar', 'minimal_tags', 'multi_umi']
 SIMPLE_KINDS = ['pair', 'single', 'pair_rev']
 UNPLACED_KINDS = ['unplaced_pair', 'unplaced_single']
 
@@ -243,8 +245,9 @@ def build(layout, rng, method='nla'):
                 reads += [r1, r2]
                 note(nm, 1, 1, False, kind, cn)
                 note(nm, 2, 2, False, kind, cn)
-            elif kind == 'umi_bridge':
-                for suffix, u in (('a', 'AAA'), ('b', 'ATT'), ('c', 'AAT')):
+            elif kind in ('umi_bridge', 'multi_umi'):
+                for suffix, u in ((('a', 'AAA'), ('b', 'ATT'), ('c', 'AAT')) if kind == 'umi_bridge' else
+                                  (('a', 'AAA'), ('b', 'CCC'), ('c', 'GGG'))):
                     t3 = dict(tg, RX=u)
                     nm = name + suffix
                     r1 = bamgen.make_read(header, nm, cn, pos, _seq(rng, l1, start='CATG'), _qual(rng, l1), paired=True, proper=True,
